@@ -320,8 +320,10 @@ func inv_findOptimalPool_poolloop(n *node, kvcIdx int) {
 
 //kvc:loop (*Graph).findOptimalPool "for i := range pools[poolIdx]"
 func inv_findOptimalPool_backscan(pools [][]*node, poolIdx int, dependencies []*node, kvcIdx int) {
-	vs.Invariant("scanned_are_sync_non_dependencies", vs.Forall(kvcIdx, func(j int) bool {
-		return !pools[poolIdx][len(pools[poolIdx])-1-j].providerSpec.IsAsync
+	// (stated over the positions themselves, not over the loop counter: the scan runs from the back, and a fact
+	// indexed by len-1-j cannot be instantiated by trigger matching when position k is asked for)
+	vs.Invariant("scanned_are_sync_non_dependencies", vs.ForallRange(len(pools[poolIdx])-kvcIdx, len(pools[poolIdx]), func(k int) bool {
+		return !pools[poolIdx][k].providerSpec.IsAsync
 	}))
 }
 
